@@ -33,7 +33,7 @@ const hcDomain = "hc.probe.test."
 
 var allStates = []string{
 	"up", "up", "up", "silent", "refuse", "close", "wrong-id", "wrong-name", "wrong-type", "two-questions",
-	"tc-then-tcp", "garbage", "short", "ancount", "servfail", "nxdomain", "dup",
+	"tc-then-tcp", "garbage", "short", "cut", "ancount", "servfail", "nxdomain", "dup",
 }
 
 func classOf(state string) string {
@@ -214,6 +214,31 @@ func (u *upstream) reply(req *dns.Msg, tr string) (raw [][]byte, closeAfter bool
 		b = append(b, 3, 'x', 'y', 'z', 0xc0)
 
 		return [][]byte{b}, false
+	case "cut":
+		// The beginning of the right reply, cut inside the question's name
+		// or inside the answer record: what follows in the reader's buffer
+		// are the request's own octets and those of earlier replies.  Cuts
+		// between the end of the name and the end of the question are left
+		// out: the DNS library's decoder takes a question without type or
+		// class for a complete one, so such a reply decodes, from its own
+		// bytes, as a valid shorter message.
+		b := pack(good())
+		nameEnd := 12 + len(q.Name) + 1
+		if q.Name == "." {
+			nameEnd = 12 + 1
+		}
+		qEnd := nameEnd + 4
+		var ks []int
+		for k := 17; k < len(b); k++ {
+			if k < nameEnd || k > qEnd {
+				ks = append(ks, k)
+			}
+		}
+		if len(ks) == 0 {
+			panic("cut: reply too short to be cut")
+		}
+
+		return [][]byte{b[:ks[u.seg.IntN(len(ks))]]}, false
 	case "ancount":
 		m := good()
 		m.Answer = nil
@@ -411,7 +436,7 @@ func run(s *kernel.Sim, prop, cfg string) {
 
 	states := allStates
 	if prop == "C06" {
-		states = []string{"up", "up", "garbage", "short", "ancount", "wrong-name", "two-questions", "tc-then-tcp"}
+		states = []string{"up", "up", "garbage", "short", "cut", "cut", "ancount", "wrong-name", "two-questions", "tc-then-tcp"}
 	}
 
 	ctx := dnsserver.ContextWithServerInfo(context.Background(), &dnsserver.ServerInfo{Name: "sim", Addr: "x", Proto: dnsserver.ProtoDNS})
